@@ -18,7 +18,9 @@ LEVEL_NOTE = ("Trusted: Lean kernel + 3 standard axioms; hand-written model (Lex
               "total model functions); correspondence run incl. size-scaled inputs; CPython re semantics. Not modelled: "
               "recursion limit and memory of the interpreter, logging.")
 TECHNIQUE = "Lean 4 proof: unreachability of error states by an automaton invariant; differential correspondence incl. size-scaled inputs"
-RULE = ("corpus; every string of <= k tokens over { } \" , = NL \\ @a a SP behind 6 block prefixes (k=4 quick, 5 thorough); "
+RULE = ("corpus; every sequence of <= 3 (thorough 4) whole blocks over a pool of 11 whose keys collide exactly or only "
+        "up to letter case (@string / entry / duplicate-field / comment / preamble / free text, with references in both "
+        "spellings); every string of <= k tokens over { } \" , = NL \\ @a a SP behind 6 block prefixes (k=4 quick, 5 thorough); "
         "arbitrary Unicode garbage incl. lone surrogates (python-only stream: must not raise); size-scaled families "
         "(1e3..1e5 lines of blank/comment/value text, brace nesting 1e4, 2e4 blocks, unterminated blocks at EOF). For every "
         "case the real parse_string AND write_string are run; compared with the model of the whole pipeline: the parsed "
@@ -88,10 +90,20 @@ def _scaled(tier):
         yield "@a{k," + "f=1," * min(n, 20000) + "}"
 
 
+# whole blocks whose keys collide exactly or only up to letter case, with references in both spellings:
+# every sequence of a few of them goes through Library.add, string resolution, enclosing and the writer
+BLOCK_POOL = ['@string{Jan = "x"}', "@string{jan = {y}}", "@string{jan = 1}", "@a{K, f = jan, g = Jan}", "@a{k, f = JAN}",
+              "@a{k}", "@B{K,}", "@a{k, f = 1, F = 2, f = 3}", "@comment{jan}", "jan", "@preamble{jan}"]
+
+
 def gen(tier, rng):
     k = 4 if tier == "quick" else 5
     for t in C.token_strings(C.SPLIT_ALPHABET, k, C.SPLIT_PREFIXES):
         yield {"t": t}
+    import itertools
+    for n in range(1, 4 if tier == "quick" else 5):
+        for combo in itertools.product(BLOCK_POOL, repeat=n):
+            yield {"t": "\n".join(combo)}
     for _ in range(4000 if tier == "quick" else 40000):
         yield {"t": _garbage(rng, rng.randint(1, 40))}
     for _ in range(500 if tier == "quick" else 5000):
